@@ -82,30 +82,6 @@ func errTok(err error) string {
 	return "E:other"
 }
 
-// readAll loops ReadFrame on the real reader until it fails.
-func readAll(b []byte) (out []string) {
-	r := marbl.NewReader(bytes.NewReader(b))
-	defer func() {
-		if p := recover(); p != nil {
-			out = append(out, "PANIC")
-		}
-	}()
-	for i := 0; i <= len(b); i++ {
-		f, err := r.ReadFrame()
-		if err != nil {
-			if f != nil {
-				out = append(out, "E:frame-with-error")
-			}
-			return append(out, errTok(err))
-		}
-		if f == nil {
-			return append(out, "E:nil-frame-nil-error")
-		}
-		out = append(out, frameTok(f))
-	}
-	return append(out, "E:no-progress")
-}
-
 func heapAllocs() uint64 {
 	s := []metrics.Sample{{Name: "/gc/heap/allocs:bytes"}}
 	metrics.Read(s)
@@ -1110,6 +1086,24 @@ func main() {
 		emit("handler", in)
 	}
 
+	// ---- 5d. many small data frames followed by far more than 4096 further
+	// bytes (a bufio-sized window): frames a consumer still holds must not change
+	for k := 0; k < 10*scale; k++ {
+		r := rng.Fork()
+		thr := r.Range(1, 3)
+		in := []string{"MS", fmt.Sprintf("T=%d", thr)}
+		for j, nm := 0, r.Range(1, 4); j < nm; j++ {
+			in = append(in, "M", "id="+hexTok(fmt.Sprintf("s%07d", j)), fmt.Sprintf("bd=%d:%d", r.Range(3000, 20000), r.Intn(1<<30)))
+			for i, n := 0, r.Range(1, 3); i < n; i++ {
+				in = append(in, fmt.Sprintf("rb=%d", r.Range(100, 900)))
+			}
+			if r.Chance(1, 3) {
+				in = append(in, "k=S")
+			}
+		}
+		emit("smallframes", in)
+	}
+
 	// ---- 6. reader robustness
 	rd := func(kind string, b []byte) { emit(kind, []string{"RD", hx.Hex(b)}) }
 	id := "ABCDEFGH"
@@ -1147,6 +1141,24 @@ func main() {
 	valid := append(rawHeader(1, 1, id, 4, 5, []byte("namevalue")), rawData(2, 1, id, 0, 1, 3, []byte("abc"))...)
 	for i := 0; i <= len(valid); i++ {
 		rd("rdtrunc", valid[:i])
+	}
+	// 6b'. long valid streams of small frames (several bufio refills)
+	for k := 0; k < 12*scale; k++ {
+		r := rng.Fork()
+		var b []byte
+		for j, nf := 0, r.Range(20, 60); j < nf; j++ {
+			pl := r.Range(0, 600)
+			if r.Chance(1, 4) {
+				nlv := r.Intn(pl + 1)
+				b = append(b, rawHeader(1, byte(1+r.Intn(2)), id, uint32(nlv), uint32(pl-nlv), r.Bytes(pl))...)
+			} else {
+				b = append(b, rawData(2, byte(1+r.Intn(2)), id, uint32(j), byte(r.Intn(2)), uint32(pl), r.Bytes(pl))...)
+			}
+		}
+		if r.Chance(1, 3) {
+			b = b[:len(b)-r.Range(1, 30)]
+		}
+		rd("rdlong", b)
 	}
 	// 6c. frame type / message type / terminal bytes
 	for _, ft := range []byte{0, 1, 2, 3, 0x81, 0xff} {
